@@ -40,6 +40,7 @@ def run(ctx):
     _f3.append_layouts(ctx, 'R9.13')
     _f3.removal_check(ctx, 'R9.14')
     _f3.partition_text(ctx, 'R9.15')
+    r916(ctx, wr)
     _cs.general_rules(ctx, 'R9', ['writer.write', 'writer.overwrite', 'writer.merge', 'writer.write_multi', 'writer.partition_on_columns', 'api.ParquetFile.write_row_groups', 'api.ParquetFile.remove_row_groups', 'api.ParquetFile._sort_part_names', 'api.ParquetFile._write_common_metadata', 'writer.write_common_metadata', 'writer.consolidate_categories'])
 
 
@@ -315,6 +316,33 @@ def r97(ctx, wr):
     ctx.ob('R9.7', 'writer.overwrite:row-groups-to-remove-matched-by-partition-values',
            len(rm) == 1 and 'partitions(rg, True) in partition_values_in_new' in norm(rm[0].value) and 'pf.row_groups' in norm(rm[0].value),
            norm(rm[0])[:120] if rm else '', wr.loc(f))
+
+
+def r916(ctx, wr, rule='R9.16'):
+    """writer.partition_on_columns refuses unusable columns / values (`raise`) only while nothing has been written: no
+    path leads from a statement that makes a directory or opens a part file to one of its own `raise` statements - a
+    refusal in the middle of the groups leaves the part files of the groups before it in the directory, referenced by
+    no metadata"""
+    f = wr.func('partition_on_columns')
+    cfg = CFG(f)
+    eff = []
+    for n in cfg.nodes:
+        st = n.stmt
+        if st is None:
+            continue
+        hdr = st.items[0].context_expr if isinstance(st, ast.With) else (None if isinstance(st, (ast.If, ast.For, ast.While, ast.Try)) else st)
+        if hdr is None:
+            continue
+        for c in ast.walk(hdr):
+            if isinstance(c, ast.Call) and (fx.classify(c) in ('OPEN', 'MKDIR') or callee(c) in ('mkdirs', 'open_with', 'make_part_file')):
+                eff.append(n.id)
+                break
+    raises = [n.id for n in cfg.nodes if isinstance(n.stmt, ast.Raise)]
+    ctx.floor(rule, 'file-system effects in partition_on_columns', len(eff), 1)
+    for r_ in raises:
+        late = [e for e in eff if cfg.exists_path(e, r_)]
+        ctx.ob(rule, 'writer.partition_on_columns:refusal-before-anything-is-written:%s' % norm(cfg.nodes[r_].stmt)[:60], not late,
+               'reachable after: %s' % [norm(cfg.nodes[e].stmt)[:50] for e in late[:3]], wr.loc(cfg.nodes[r_].stmt))
 
 
 MUTATORS = ('ParquetFile._sort_part_names', 'ParquetFile.remove_row_groups', 'ParquetFile.write_row_groups')
